@@ -1,13 +1,13 @@
 SPECIFICATION Spec
 CONSTANTS
-  Class = "stdio"
+  Class = "stream"
   Ideal = FALSE
-  KSet = {"n"}
+  KSet = {"n", "orph"}
   NW <- W11
   NR <- W11
-  NC <- W11
+  NC <- W21
   WMax = 3
   CMax = 2
-INVARIANTS TypeOK Fifo NoSpuriousError NoLoss RestAll ClosedStopsReads
+INVARIANTS TypeOK Fifo NoSpuriousError NoLoss RestAll ClosedStopsWrites
 PROPERTIES ClosedForGood
 CHECK_DEADLOCK FALSE
